@@ -254,6 +254,20 @@ def run(F, R, tier):
             "remove_audit fails only through %s" % sorted(s for _, s in want),
             "remove_audit has new / other failure sources %s (missing %s): each is a way to accept a connection without consuming its record"
             % (sorted(got - want), sorted(want - got)))
+    # ... and it can only succeed by deleting: the Ok result of remove_audit_map_entry is the kernel delete's own result, never a
+    # locally built Ok (an early `return Ok(())` for some keys would report "removed" while the record stays)
+    rme = F.body_of(BPF + "BpfObject::remove_audit_map_entry")
+    if rme:
+        Bm = mir.Body(rme, F)
+        loc_ok = [o for o in Bm.origins(contracts.RET) if o[0] == "agg" and str(o[1]).endswith("Result::Ok")]
+        rmc = [c[0] for c in Bm.calls_named("aya::maps::HashMap::remove", "HashMap::remove")]
+        okb = [o[2] for o in loc_ok]
+        pth = Bm.path([0], okb, cut_blocks=rmc) if okb else None
+        imp_ok, _, ts_ = q.outcome_edges(Bm, q.from_call("HashMap::remove", whole=False), "Ok")
+        R.check(len(rmc) == 1 and pth is None, "C07.R4", "C07.R4:remove_audit_map_entry:success-is-the-delete", "%s:%s" % (rme["file"], rme["line"]),
+                "remove_audit_map_entry reaches its Ok result only through the map's remove() call",
+                "remove_audit_map_entry can report success without deleting (remove() calls: %d)" % len(rmc),
+                witness={"path_lines": Bm.path_lines(pth)} if pth else None)
     # the mutex around the eBPF object is taken with a blocking lock() on the consume path
     ra = F.body_of(AP + "redirector::remove_audit")
     if ra:
